@@ -94,7 +94,7 @@ func run(t *testing.T, sc scenario, r *rand.Rand) outcomeT {
 	if sc.Point == "handoff-vs-timeout" {
 		target = 0
 	}
-	synctest.Test(t, func(t *testing.T) {
+	bubble(t, func(t *testing.T) {
 		k := sc.Kind
 		k.Precise = precise
 		w := blk.NewWorld(k, sc.Cap)
@@ -296,4 +296,9 @@ func TestCheck(t *testing.T) {
 		sc.Yields = []int{2000, 20000, 200}[r.IntN(3)]
 		judge(idx, sc, run(t, sc, r))
 	})
+}
+
+// bubble runs f in a synctest bubble; a bubble that cannot end (goroutines left blocked) is recorded, not fatal.
+func bubble(t *testing.T, f func(*testing.T)) {
+	rt.Bubble(func() { synctest.Test(t, f) }, "C10")
 }
